@@ -1,3 +1,3 @@
-CONSTANTS Prog <- CcQuick ResetLocking = "release" EventUnlock = FALSE HandlerFetch = TRUE
+CONSTANTS Prog <- CcQuick ResetLocking = "release" EventUnlock = FALSE HandlerFetch = TRUE Arm = 2 GapLocked = TRUE ResizeSameUnlocks = TRUE
 SPECIFICATION Spec
 INVARIANTS LocksetOK NoRace CallbackUnlocked NoSelfLock SnapshotAtomic ConsistentSet HolderOK
